@@ -233,6 +233,7 @@ func (m *Machine) contractCall(c *Config, call ssa.CallInstruction, callee *ssa.
 						delete(st.mem, k)
 					}
 				}
+				st.markHavocked(p.Obj, "")
 			}
 		}
 	}
